@@ -1497,6 +1497,15 @@ def table_row_check_attrs(ctx: "Wtp") -> None:
     if len(node.children) < 1:
         return
 
+    # Once the row has cells, what it contains are cells, not attributes
+    # (otherwise "|k=v||b" loses its first cell when "||" arrives)
+    if any(
+        isinstance(x, WikiNode)
+        and x.kind in (NodeKind.TABLE_CELL, NodeKind.TABLE_HEADER_CELL)
+        for x in node.children
+    ):
+        return
+
     check, attribute_string = check_for_attributes(ctx, node)
     if not check:
         return
